@@ -38,7 +38,8 @@ ASSUMPTIONS = [
 ]
 REQUIRED = {"inplace_list_calls": 3, "corner_calls": 5, "pairs_judged": 200, "pairs_query_longer": 20,
 	"pairs_query_shorter": 20, "monotonicity_pairs": 1000,
-	"self_matches": 5, "rc_swaps": 5}
+	"self_matches": 5, "rc_swaps": 5, "hashing_calls": 3,
+	"hashing_constant_row_calls": 2}
 TECHNIQUE = ("runtime monitoring: independent complete-score reference "
 	"(alignment enumeration + convolution null + strand merge) compared with "
 	"every observed tomtom() row; integerisation kernel monitored for "
@@ -51,11 +52,33 @@ def rc(p):
 	return numpy.ascontiguousarray(p[::-1, ::-1])
 
 
-def integerise(TT, Qs, Tall, qi, n_bins, n_median_bins=1000):
+def hash_order(Tall, nb):
+	"""The column hash of the statement's 'column hashing' (values binned into
+	nb bins per row, columns with equal bins merged): -> (indices of the
+	first column of every distinct hash in ascending hash order, inverse map,
+	counts).  Only used when the hash has been verified injective, i.e. only
+	identical columns are merged."""
+	T = numpy.concatenate(Tall, axis=-1)
+	tmin = T.min(axis=-1, keepdims=True)
+	tmax = T.max(axis=-1, keepdims=True).copy()
+	tmax[tmax == tmin] = tmin[tmax == tmin] + 1
+	ints = numpy.around((T - tmin) / (tmax - tmin) * (nb - 1))
+	key = ints.T.dot(nb ** numpy.arange(len(T))[:, None]).flatten()
+	_, idx, inv, counts = numpy.unique(key, return_index=True,
+		return_inverse=True, return_counts=True)
+	return idx, inv, counts
+
+
+def integerise(TT, Qs, Tall, qi, n_bins, n_median_bins=1000, dedupe=None):
 	"""Calls the implementation's integerisation kernel for query qi.
-	-> (x (ncols, nq) int, f (nq, n_bins+1), offset)"""
+	-> (x (ncols, nq) int, f (nq, n_bins+1), offset)
+	dedupe = (idx, inv, counts): the kernel is given the distinct columns
+	with their multiplicities (as tomtom does under hashing); x is expanded
+	back to all columns."""
 	Q = numpy.ascontiguousarray(numpy.concatenate(Qs, axis=-1))
 	T = numpy.ascontiguousarray(numpy.concatenate(Tall, axis=-1))
+	if dedupe is not None:
+		T = numpy.ascontiguousarray(T[:, dedupe[0]])
 	Qmax = max(q.shape[1] for q in Qs)
 	ncols = T.shape[1]
 	gamma = numpy.full((ncols, Qmax), numpy.nan)
@@ -65,13 +88,16 @@ def integerise(TT, Qs, Tall, qi, n_bins, n_median_bins=1000):
 	median_bins = numpy.full((n_median_bins, 2), numpy.nan)
 	Q_norm = (Q ** 2).sum(axis=0)
 	T_norm = (T ** 2).sum(axis=0)
-	counts = numpy.ones(ncols, dtype=numpy.int64)
+	counts = numpy.ones(ncols, dtype=numpy.int64) if dedupe is None else \
+		dedupe[2].astype(numpy.int64)
 	csum = int(sum(q.shape[1] for q in Qs[:qi]))
 	nq = Qs[qi].shape[1]
 	off = TT._integer_distances_and_histogram(Q, T, gamma, gamma_int, f,
 		medians, median_bins, Q_norm, T_norm, counts, csum, nq, n_bins)
 	off = int(off)
 	x = gamma_int[:, :nq][:, ::-1].astype(numpy.int64) + off
+	if dedupe is not None:
+		x = x[dedupe[1]]
 	return x, f[:nq].copy(), off
 
 
@@ -106,13 +132,17 @@ def judge_call(cls, params, rec, TT, Qs, Ts, kw, desc, tag=""):
 			res.shape,)), mech="C14/shape")
 		return None
 	Tall = list(Ts) + ([rc(t) for t in Ts] if rcflag else [])
+	dedupe = None
+	if kw.get("n_target_bins") is not None:
+		dedupe = hash_order(Tall, kw["n_target_bins"])
 	tl = [t.shape[1] for t in Tall]
 	starts = numpy.cumsum([0] + tl)
 	n_bins = kw["n_score_bins"]
 	partial = False
 	for qi, q in enumerate(Qs):
 		nq = q.shape[1]
-		st, got = gen.call(integerise, TT, Qs, Tall, qi, n_bins)
+		st, got = gen.call(integerise, TT, Qs, Tall, qi, n_bins,
+			dedupe=dedupe)
 		if st == "raise":
 			rec.violation(cls, params, dict(desc, what="integerisation "
 				"kernel raised (bounds check?)", error=repr(got)[:300]),
@@ -236,12 +266,30 @@ def run_case(cls, params, rec):
 	if kind == "palindrome" and len(Ts) > 2:
 		h = make_pwm(nr, r, r.randint(2, 8), grid)
 		Ts[2] = numpy.ascontiguousarray(numpy.concatenate([h, rc(h)], axis=1))
+	constrow = None
+	if kind == "hashing" and params["cseed"] % 4 < 2:
+		# some alphabet rows identical over ALL pooled target columns (also
+		# after reverse complementing): A/T-only targets, or C = G = const
+		constrow = ["C/G rows all zero", "C/G rows all 0.25"][
+			params["cseed"] % 4]
+		cg = 0.0 if params["cseed"] % 4 == 0 else 0.25
+		for ti in range(len(Ts)):
+			t = Ts[ti].copy()
+			at = t[[0, 3]]
+			tot = at.sum(axis=0)
+			at[0, tot == 0] = 1.0
+			at = at / at.sum(axis=0) * (1 - 2 * cg)
+			t[0], t[3], t[1], t[2] = at[0], at[1], cg, cg
+			Ts[ti] = numpy.ascontiguousarray(t)
+		rec.count("hashing_constant_row_calls")
 	kw = dict(n_score_bins=params["n_score_bins"], n_target_bins=None,
 		reverse_complement=params["rc"])
 	desc = {"query_lengths": [q.shape[1] for q in Qs],
 		"target_lengths": [t.shape[1] for t in Ts], "rc": params["rc"],
 		"n_score_bins": params["n_score_bins"], "grid": grid,
 		"cseed": params["cseed"]}
+	if constrow:
+		desc["targets"] = constrow
 	out = judge_call(cls, params, rec, TT, Qs, Ts, kw, desc)
 	if out is None:
 		return
@@ -268,22 +316,28 @@ def run_case(cls, params, rec):
 	if kind == "hashing":
 		nb = params["n_target_bins"]
 		Tall = list(Ts) + ([rc(t) for t in Ts] if params["rc"] else [])
+		# finer hashes when the requested one merges distinct columns
+		# (nb ** 4 stays exactly representable)
+		for nb in (nb, 1000, 5000):
+			if hash_injective(Tall, nb):
+				break
 		if hash_injective(Tall, nb):
 			rec.count("hashing_calls")
-			kw2 = dict(kw, n_target_bins=nb)
-			st, val = gen.call(TT.tomtom, Qs, Ts, n_jobs=1, **kw2)
-			if st == "raise":
-				rec.violation(cls, params, dict(desc, what="tomtom raised "
-					"with hashing", error=repr(val)[:300]),
-					mech="C14/out-of-bounds-access" if isinstance(val,
-					IndexError) else "C14/raised")
+			# the hashed call is judged like any other call, with the
+			# integerised matrix obtained for the merged columns and their
+			# multiplicities (hashed and unhashed results may legitimately
+			# differ at exact half-way ties: the binned median sums the same
+			# values in another order)
+			out2 = judge_call(cls, params, rec, TT, Qs, Ts, dict(kw,
+				n_target_bins=nb), desc, tag=" (with column hashing)")
+			if out2 is None:
 				return
-			v = val.numpy()
-			same = numpy.array_equal(v[1:], res[1:]) and numpy.abs(v[0] -
-				res[0]).max() <= 1e-9
-			if not same:
+			v = out2[0]
+			if numpy.abs(v[0] - res[0]).max() > 1e-9 and numpy.array_equal(
+				v[1:], res[1:]):
 				rec.violation(cls, params, dict(desc, what="injective column "
-					"hashing changes the result", n_target_bins=nb,
+					"hashing changes p-values although scores, offsets and "
+					"overlaps are identical", n_target_bins=nb,
 					max_abs_p_diff=float(numpy.abs(v[0] - res[0]).max())),
 					mech="C14/hashing")
 				return
